@@ -17,19 +17,30 @@ from harness import fw, gen_bits, cpp_build
 META = {
     "technique": "Coq proofs about a Gallina mirror of the C++ runtime's scalar read path (C++ integer semantics explicit) + differential correspondence through generated code",
     "level_text": "Machine-checked theorems (Coq 8.16, no axioms), for every container size 1..8 bytes, byte order, bit offset, width 1..64 and all contents: the mirrored read path (MemoryAccessor load -> BitBlock -> OffsetBitBlock::ReadUInt, also through nested offset blocks -> UIntView / IntView::ConvertToSigned / BcdView::ConvertToBinary and IsBcd / FlagView / EnumView / FloatView bit pattern) returns the documented value of exactly the field's bits, without undefined behaviour or failed CHECK, in a value type wide enough; IsBcd's parallel-nibble trick is proved for every number of nibbles (all 2^64 values of uint64_t); the EMBOSS_NO_OPTIMIZATIONS configuration (portable shift-and-or loops, non-two's-complement ConvertToSigned branch) is proved to read the same values as the memcpy+bswap configuration. For signed enums narrower than their underlying type the faithful model refutes the property (finding F1, theorem enum_signed_read_refuted) and the strongest true statement (width = underlying width) is proved. The model is tied to /repo on every run: generated modules are compiled by the working tree's embossc and g++ (both runtime configurations), and every accessor's Ok/IsComplete/Read/UncheckedRead/sizeof/signedness/CHECK failures are compared with the model (extracted OCaml for all cases, Coq vm_compute for a sample) and with an independent arithmetic reference.",
-    "level_note": "Trusted: Coq kernel + vm_compute; extraction (ExtrOcamlBasic only) + OCaml for the bulk evaluation, cross-checked against vm_compute on a sample each run; g++ 12 as the semantics of C++ (integer promotion rules and GCC's implementation-defined choices are written into Bits/Model.v section 1; signed left shift is treated more strictly than C++14); harness/gen_bits.py (generator, SPEC reference) and harness/cpp_build.py. Modelled, not verified: the C++ sources. Float: only the bit pattern is modelled (memcpy identity; the driver prints the re-memcpy'd bits); [requires] validators and the generated struct code are C01's subject; the aligned EMBOSS_ALIAS_SAFE_POINTER_CAST accessors are represented by the memcpy model and are not exercised by the drivers (views are built with alignment 1).",
+    "level_note": "Trusted: Coq kernel + vm_compute; extraction (ExtrOcamlBasic only) + OCaml for the bulk evaluation, cross-checked against vm_compute on a sample each run; g++ 12 as the semantics of C++ (integer promotion rules and GCC's implementation-defined choices are written into Bits/Model.v section 1; signed left shift is treated more strictly than C++14); harness/gen_bits.py (generator, SPEC reference) and harness/cpp_build.py. Modelled, not verified: the C++ sources. Float: only the bit pattern is modelled (memcpy identity; the driver prints the re-memcpy'd bits); [requires] validators and the generated struct code are C01's subject; the alignment-specialised MemoryAccessor templates (EMBOSS_ALIAS_SAFE_POINTER_CAST loads/stores) are represented by the same memcpy model (a full-width object load is that function by definition); that static alignment does not change the function computed is an assumption TESTED every run, not a theorem: a second driver per module observes accessors again through GenericTopView<ContiguousBuffer<unsigned char, A, k>> for A in {2,4,8} (thorough: also 1) at buffer addresses k mod A (MakeAlignedTopView<unsigned char, A>, which only offers k = 0, whenever k = 0), every 2/4/8-byte container once at an address that is a multiple of its size under alignment 8, and compares them with the same SPEC and model values.",
 }
 
 N_REPLAY_KEEP = 5
 
 
-def _jobs_for(ctx, mods, mode, given=None):
+def _jobs_for(ctx, mods, mode, given=None, aligned=True):
     jobs, info = [], {}
     for m in mods:
         drv, cases = gen_bits.driver_and_cases(m, ctx.rng, mode=mode, given=(given or {}).get(m.name))
-        jobs.append(cpp_build.CppJob(m.name, m.text(), drv, defines=[] if m.opt else ["EMBOSS_NO_OPTIMIZATIONS"]))
+        extra = {"aligned": gen_bits.aligned_driver(m, cases, thorough=ctx.thorough(), light=(mode != "read"))} if aligned else None
+        jobs.append(cpp_build.CppJob(m.name, m.text(), drv, defines=[] if m.opt else ["EMBOSS_NO_OPTIMIZATIONS"],
+                                     extra_drivers=extra))
         info[m.name] = (m, cases)
     return jobs, info
+
+
+def _akey(key, var):
+    """observations through a statically aligned view: unknown mechanisms are keyed apart from the plain view's"""
+    return key if var is None or not key.startswith("scalar-") else "aligned-view:" + key
+
+
+def _amsg(var):
+    return "" if var is None else " [through a view with static alignment %d at an address that is %d mod %d]" % (var[0], var[1], var[0])
 
 
 def _replay(m, acc, **kw):
@@ -39,12 +50,12 @@ def _replay(m, acc, **kw):
     return d
 
 
-def evaluate(ctx, mods, mode, tag, given=None, count=True):
+def evaluate(ctx, mods, mode, tag, given=None, count=True, aligned=True):
     """Build + run the modules, compare every observation with the SPEC, return Coq cases.
 
     Returns (coq_cases, n_spec_violations, build_failures)."""
     t0 = time.time()
-    jobs, info = _jobs_for(ctx, mods, mode, given)
+    jobs, info = _jobs_for(ctx, mods, mode, given, aligned)
     t1 = time.time()
     results = cpp_build.run_jobs(os.path.join(ctx.bdir, "cpp_" + tag), jobs, parallel=16, timeout=1500)
     t2 = time.time()
@@ -62,69 +73,90 @@ def evaluate(ctx, mods, mode, tag, given=None, count=True):
                           dict(kind="build", module=m.text(), stage=r.stage, log=r.log[-3000:]), found_input=False)
             continue
         reads, writes, end = gen_bits.parse_lines(r.lines)
+        areads, awrites, aligned_ok = {}, {}, False
+        er = r.extra.get("aligned")
+        if er is not None:
+            areads, awrites, aend = gen_bits.parse_lines(er.lines)
+            aligned_ok = er.ok and aend
+            if not aligned_ok:
+                ctx.violation("cpp-build:aligned:" + er.stage, "aligned-view driver of %s: stage %s failed (rc=%s): %s"
+                              % (name, er.stage, er.rc, er.log[-400:]),
+                              dict(kind="build", module=m.text(), stage=er.stage, log=er.log[-3000:]), found_input=False)
         if not end:
             ctx.violation("cpp-build:output", "driver of %s did not finish" % name,
                           dict(kind="build", module=m.text()), found_input=False)
             continue
         for acc in m.accessors:
             cs = cases[acc.id]
-            if mode != "write":
-                for b, root in enumerate(cs["read_bufs"]):
-                    o = reads.get((acc.id, b))
-                    if o is None:
-                        ctx.violation("cpp-build:output", "missing observation", dict(kind="build", module=m.text()), found_input=False)
-                        continue
-                    if count:
-                        ctx.count("read:%s" % acc.kind)
-                        ctx.count("order:%s" % acc.order)
-                        ctx.count("container-bytes:%d" % acc.c)
-                        ctx.count("width:%02d-%02d" % ((acc.w - 1) // 8 * 8 + 1, (acc.w - 1) // 8 * 8 + 8))
-                        ctx.count("depth:%d" % len(acc.path))
-                        ctx.count("opt" if m.opt else "portable")
-                        ctx.case(("r", acc.key(), bytes(root), m.opt), nontrivial=gen_bits.spec_complete(acc, root),
-                                 sample=dict(accessor=acc.describe(), buffer=gen_bits.hexs(root), cpp=o["line"]))
-                    bad = gen_bits.check_read(acc, root, o)
-                    if bad:
-                        n_bad += 1
-                        key, msg, exp = bad
-                        ctx.violation(key, "%s %s width %d at bit %d of %d-byte %s container, buffer %s: %s" % (
-                            acc.kind, acc.enum or "", acc.w, acc.bit_offset, acc.c, acc.order, gen_bits.hexs(root), msg),
-                            _replay(m, acc, buffer=gen_bits.hexs(root), observed=o["line"], expected=exp), found_input=True)
-                    coq_cases.append((None, None, dict(m=m, acc=acc, root=root, obs=o, spec_bad=bool(bad))))
-            if mode != "read":
-                for b, root in enumerate(cs["write_bufs"]):
-                    ws, exps, objs, any_bad = [], [], [], False
-                    for ti, (t, vals) in enumerate(cs["writes"]):
-                        t = tuple(t)
-                        for i, v in enumerate(vals):
-                            o = writes.get((acc.id, b, ti, i))
-                            if o is None:
-                                ctx.violation("cpp-build:output", "missing observation", dict(kind="build", module=m.text()), found_input=False)
-                                continue
-                            if count:
-                                ctx.count("write:%s" % acc.kind)
-                                ctx.count("argty:%s" % gen_bits.cty_name(t))
-                                ctx.count("order:%s" % acc.order)
-                                ctx.count("container-bytes:%d" % acc.c)
-                                ctx.count("opt" if m.opt else "portable")
-                                lo, hi = gen_bits.field_range(acc)
-                                ctx.count("value:" + ("in-range" if lo <= v <= hi else "out-of-range"))
-                                ctx.case(("w", acc.key(), bytes(root), t, v, m.opt), nontrivial=gen_bits.spec_complete(acc, root),
-                                         sample=dict(accessor=acc.describe(), buffer=gen_bits.hexs(root),
-                                                     argument_type=gen_bits.cty_name(t), value=v, cpp=o["line"]))
-                            bad = gen_bits.check_write(acc, root, t, v, o)
-                            if bad:
-                                n_bad += 1
-                                any_bad = True
-                                key, msg, exp = bad
-                                ctx.violation(key, "%s %s width %d at bit %d of %d-byte %s container, buffer %s, argument (%s)%d: %s" % (
-                                    acc.kind, acc.enum or "", acc.w, acc.bit_offset, acc.c, acc.order, gen_bits.hexs(root),
-                                    gen_bits.cty_name(t), v, msg),
-                                    _replay(m, acc, buffer=gen_bits.hexs(root), argument_type=gen_bits.cty_name(t), value=v,
-                                            observed=o["line"], expected=exp), found_input=True)
-                            objs.append((t, v, o))
-                    if objs:
-                        coq_cases.append((None, None, dict(m=m, acc=acc, root=root, writes=objs, spec_bad=any_bad)))
+            for vi, var in enumerate([None] + list(cs.get("aligned", []) if aligned_ok else [])):
+                aid = acc.id + gen_bits.ALIGNED_ID * vi
+                R, W = (reads, writes) if var is None else (areads, awrites)
+                vw = {} if var is None else dict(view="static alignment %d, buffer address = %d mod %d" % (var[0], var[1], var[0]))
+                if mode != "write":
+                    for b, root in enumerate(cs["read_bufs"]):
+                        o = R.get((aid, b))
+                        if o is None:
+                            ctx.violation("cpp-build:output", "missing observation", dict(kind="build", module=m.text()), found_input=False)
+                            continue
+                        if count and var is None:
+                            ctx.count("read:%s" % acc.kind)
+                            ctx.count("order:%s" % acc.order)
+                            ctx.count("container-bytes:%d" % acc.c)
+                            ctx.count("width:%02d-%02d" % ((acc.w - 1) // 8 * 8 + 1, (acc.w - 1) // 8 * 8 + 8))
+                            ctx.count("depth:%d" % len(acc.path))
+                            ctx.count("opt" if m.opt else "portable")
+                            ctx.case(("r", acc.key(), bytes(root), m.opt), nontrivial=gen_bits.spec_complete(acc, root),
+                                     sample=dict(accessor=acc.describe(), buffer=gen_bits.hexs(root), cpp=o["line"]))
+                        if count and var is not None:
+                            ctx.count("aligned-view-read:A=%d" % var[0])
+                            ctx.case(("ra", acc.key(), bytes(root), m.opt, var), nontrivial=gen_bits.spec_complete(acc, root))
+                        bad = gen_bits.check_read(acc, root, o)
+                        if bad:
+                            n_bad += 1
+                            key, msg, exp = bad
+                            key, msg = _akey(key, var), msg + _amsg(var)
+                            ctx.violation(key, "%s %s width %d at bit %d of %d-byte %s container, buffer %s: %s" % (
+                                acc.kind, acc.enum or "", acc.w, acc.bit_offset, acc.c, acc.order, gen_bits.hexs(root), msg),
+                                _replay(m, acc, buffer=gen_bits.hexs(root), observed=o["line"], expected=exp, **vw), found_input=True)
+                        coq_cases.append((None, None, dict(m=m, acc=acc, root=root, obs=o, spec_bad=bool(bad))))
+                if mode != "read":
+                    for b, root in enumerate(cs["write_bufs"]):
+                        ws, exps, objs, any_bad = [], [], [], False
+                        for ti, (t, vals) in enumerate(cs["writes"]):
+                            t = tuple(t)
+                            for i, v in enumerate(vals):
+                                o = W.get((aid, b, ti, i))
+                                if o is None:
+                                    ctx.violation("cpp-build:output", "missing observation", dict(kind="build", module=m.text()), found_input=False)
+                                    continue
+                                if count and var is None:
+                                    ctx.count("write:%s" % acc.kind)
+                                    ctx.count("argty:%s" % gen_bits.cty_name(t))
+                                    ctx.count("order:%s" % acc.order)
+                                    ctx.count("container-bytes:%d" % acc.c)
+                                    ctx.count("opt" if m.opt else "portable")
+                                    lo, hi = gen_bits.field_range(acc)
+                                    ctx.count("value:" + ("in-range" if lo <= v <= hi else "out-of-range"))
+                                    ctx.case(("w", acc.key(), bytes(root), t, v, m.opt), nontrivial=gen_bits.spec_complete(acc, root),
+                                             sample=dict(accessor=acc.describe(), buffer=gen_bits.hexs(root),
+                                                         argument_type=gen_bits.cty_name(t), value=v, cpp=o["line"]))
+                                if count and var is not None:
+                                    ctx.count("aligned-view-write:A=%d" % var[0])
+                                    ctx.case(("wa", acc.key(), bytes(root), t, v, m.opt, var), nontrivial=gen_bits.spec_complete(acc, root))
+                                bad = gen_bits.check_write(acc, root, t, v, o)
+                                if bad:
+                                    n_bad += 1
+                                    any_bad = True
+                                    key, msg, exp = bad
+                                    key, msg = _akey(key, var), msg + _amsg(var)
+                                    ctx.violation(key, "%s %s width %d at bit %d of %d-byte %s container, buffer %s, argument (%s)%d: %s" % (
+                                        acc.kind, acc.enum or "", acc.w, acc.bit_offset, acc.c, acc.order, gen_bits.hexs(root),
+                                        gen_bits.cty_name(t), v, msg),
+                                        _replay(m, acc, buffer=gen_bits.hexs(root), argument_type=gen_bits.cty_name(t), value=v,
+                                                observed=o["line"], expected=exp, **vw), found_input=True)
+                                objs.append((t, v, o))
+                        if objs:
+                            coq_cases.append((None, None, dict(m=m, acc=acc, root=root, writes=objs, spec_bad=any_bad)))
     ctx.extra["timing_s"][tag]["compare_with_spec"] = round(time.time() - t2, 1)
     return coq_cases, n_bad, failures
 
@@ -355,7 +387,11 @@ def run(ctx):
                 "the optimised runtime and EMBOSS_NO_OPTIMIZATIONS; contents: field bits in {0, all ones, sign bit, max positive, "
                 "1, random, BCD 9/10 boundaries, float specials} over backgrounds {0, 1, random}, plus truncated buffers; "
                 "a case is one (accessor, buffer); non-trivial when the field's bytes are present")
-    ctx.assumptions = ["fields carry no [requires] attribute (Parameters::ValueIsOk is constant true); the generated struct code that "
+    ctx.rule += ("; every accessor of a 2/4/8-byte container, and a third of the others, is observed a second time through views with "
+                 "static alignment A in {2,4,8} placed at an address k mod A (same buffers)")
+    ctx.assumptions = ["aligned_reads_agree (observed, not proved): the alignment-specialised accessors compute the same function as the "
+                       "unaligned ones, which is what the model's single load/store per byte order stands for",
+                       "fields carry no [requires] attribute (Parameters::ValueIsOk is constant true); the generated struct code that "
                        "produces the field's view is C01's subject", "Float: bit pattern only"]
     ctx.audit()
     ctx.check_theorems("EmbossV.Bits.Properties_C02", "Bits/Properties_C02.v", expect_min=10)
